@@ -10,7 +10,8 @@
 
 
 def add_or_remove_notifiers(
-        *, object, graph, handler, target, dispatcher, remove):
+        *, object, graph, handler, target, dispatcher, remove,
+        _processed=None):
     """ Add/Remove notifiers on objects following the description on an
     ObserverGraph.
 
@@ -50,8 +51,21 @@ def add_or_remove_notifiers(
         target=target,
         dispatcher=dispatcher,
         remove=remove,
+        processed=_processed,
     )
     callable_()
+
+
+def undo_processed(processed, remove):
+    """ Roll back the (notifier, observable) pairs recorded in ``processed``,
+    most recent first, leaving ``processed`` empty.
+    """
+    while processed:
+        notifier, observable = processed.pop()
+        if remove:
+            notifier.add_to(observable)
+        else:
+            notifier.remove_from(observable)
 
 
 class _AddOrRemoveNotifier:
@@ -60,7 +74,8 @@ class _AddOrRemoveNotifier:
     See ``add_or_remove_notifiers`` for the input parameters.
     """
 
-    def __init__(self, *, object, graph, handler, target, dispatcher, remove):
+    def __init__(self, *, object, graph, handler, target, dispatcher, remove,
+                 processed=None):
         self.object = object
         self.graph = graph
         self.handler = handler
@@ -68,8 +83,12 @@ class _AddOrRemoveNotifier:
         self.dispatcher = dispatcher
         self.remove = remove
 
-        # list of (notifier, observable)
-        self._processed = []
+        # list of (notifier, observable).  The walk started by the outermost
+        # call owns the list; nested walks (children, extra graphs) record
+        # into the same list so that a failure anywhere rolls back everything
+        # the outermost call has done.
+        self._owns_processed = processed is None
+        self._processed = [] if processed is None else processed
 
     def __call__(self):
         """ Main function for adding/removing notifiers.
@@ -89,17 +108,18 @@ class _AddOrRemoveNotifier:
         if self.remove:
             steps = steps[::-1]
 
+        if not self._owns_processed:
+            # The owner of the undo log rolls back.
+            for step in steps:
+                step()
+            return
+
         try:
             for step in steps:
                 step()
         except Exception:
             # Undo and then reraise
-            while self._processed:
-                notifier, observable = self._processed.pop()
-                if self.remove:
-                    notifier.add_to(observable)
-                else:
-                    notifier.remove_from(observable)
+            undo_processed(self._processed, self.remove)
             raise
         else:
             self._processed.clear()
@@ -116,6 +136,7 @@ class _AddOrRemoveNotifier:
                 target=self.target,
                 dispatcher=self.dispatcher,
                 remove=self.remove,
+                _processed=self._processed,
             )
 
     def _add_or_remove_children_notifiers(self):
@@ -130,6 +151,7 @@ class _AddOrRemoveNotifier:
                     target=self.target,
                     dispatcher=self.dispatcher,
                     remove=self.remove,
+                    _processed=self._processed,
                 )
 
     def _add_or_remove_maintainers(self):
